@@ -1314,6 +1314,10 @@ func SelectExpr(query *Query, current Map, expr *sqlparser.SelectExprs, opts ...
 				if fuse, ok := valueRaw.(Fuse); ok {
 					prefix := expr.As.String()
 					for key, value := range fuse {
+						// the backward navigation marker of the fused row is not a column
+						if key == "<-" {
+							continue
+						}
 						if len(prefix) > 0 {
 							data[fmt.Sprintf("%s.%s", prefix, key)] = value
 							continue
